@@ -39,6 +39,7 @@ package cache
 //@   invariant "walk fs.Walk" cache: cache.added != nil
 //@   invariant "range entries" entries: forall k int :: 0 <= k && k < len(entries) ==> entryPath(cache.Compress, cache.Suffix, entries[k].Path)
 //@   invariant "range entries" cache: cache.added != nil
+//@   ensures evicts_until_below_the_low_water_mark [C14]: called("sort.Slice") ==> result < lowWaterMark || completedrange == len(entries)
 //@   callsite os.Rename unmarked [C14]: !in(arg_oldpath, cache.added)
 //@   callsite os.Rename whole_entry [C14]: entryPath(cache.Compress, cache.Suffix, arg_oldpath)
 //@   callsite os.Rename tmpname [C14]: arg_newpath == arg_oldpath + "="
@@ -103,9 +104,14 @@ package cache
 //@   callsite strings.TrimPrefix relative_to_prefix [C12]: arg_s == file && arg_prefix == prefix
 //
 // A key that was never stored is a miss.
+//@ assume func (dirCache).retrieveCompressed
+//@   modifies nothing
+//@ assume func (dirCache).ensureRetrieveReady
+//@   modifies nothing
 //@ func (dirCache).retrieveFiles
 //@   requires cache != nil && cache.added != nil
 //@   opt nopanic=off
+//@   ensures a_hit_protects_the_entry_from_cleaning [C14]: result0 ==> in(cacheDir, cache.added)
 //@   ensures never_stored_is_a_miss [C12]: !old(core.PathExists(cacheDir)) ==> !result0 && result1 == nil
 //@   callsite fs.RecursiveLink from_the_entry [C12]: arg_from == filepath.Join(cacheDir, out)
 
